@@ -153,7 +153,8 @@ def rtsafe_(f, x0, bracket, settings):
 def bisection_step(x, xl, xh, df, f):
     dx = 0.5*(xh - xl)
     x = xl + dx
-    converged = (x == xl)
+    # the bracket has collapsed to adjacent floats when the midpoint rounds to either end
+    converged = (x == xl) | (x == xh)
     return x, dx, converged
 
 
